@@ -2,7 +2,7 @@
   bmdrv: reads one JSON case per line on stdin, answers one JSON outcome per line.
 -/
 import Codec
-import BiscuitModel.Props.C07
+import BiscuitModel.Model.Versions
 open Lean Biscuit Biscuit.Codec
 
 def runExpr (j : Json) : P Json := do
@@ -305,7 +305,7 @@ def runTpv (j : Json) : P Json := do
     let S : Scheme := {
       pub := fun a sk => some ⟨a, sk⟩, sign := fun _ _ _ => [],
       verify := fun pk m s => pk == resp.key && m == genuine && s == resp.sig }
-    let r := C07.appendThirdParty S c expected data resp 0 [1]
+    let r := appendThirdParty S c expected data resp 0 [1]
     pure (Json.mkObj [("accept", Json.bool r.isSome)])
 
 /-- a (possibly altered) response appended without verification, then the token is verified -/
@@ -335,6 +335,23 @@ def runTpu (j : Json) : P Json := do
     pure (Json.mkObj [("accept", Json.bool (verifyToken S root c))])
   | _, _ => throw "no proof"
 
+def runVersions (j : Json) : P Json := do
+  let pool ← parsePool (← field j "pool")
+  let blk ← parseBlock (← field j "block")
+  let (_, b) := internBlock pool ITable.empty blk
+  let kind ← (← field j "kind").getStr?
+  if kind == "declared" then
+    let placement ← (← field j "placement").getStr?
+    let v := if placement == "third-party" then declaredVersionThirdParty b else declaredVersion b
+    let sv := sigVersion ed25519 ed25519 (placement == "third-party") (some v) [0]
+    let spec : Nat := if placement == "third-party" then max 5 (specVersion b) else specVersion b
+    pure (Json.mkObj [("declared", (v : Json)), ("signature_version", (sv : Json)), ("spec", (spec : Json))])
+  else
+    let d ← getNat (← field j "declared")
+    let tp ← (← field j "third_party").getBool?
+    pure (Json.mkObj [("load", Json.bool (loadGate d tp b)),
+      ("spec_ok", Json.bool (Decidable.decide (3 ≤ d) && Decidable.decide (d ≤ 6) && Decidable.decide (specVersion b ≤ d) && (!tp || Decidable.decide (5 ≤ d))))])
+
 def handle (line : String) : String :=
   match Json.parse line with
   | .error e => (Json.mkObj [("driver_error", s!"parse: {e}")]).compress
@@ -352,6 +369,7 @@ def handle (line : String) : String :=
       | "sealops" => runSealOps j
       | "tpv" => runTpv j
       | "tpu" => runTpu j
+      | "versions" => runVersions j
       | _ => throw s!"unknown op {op}"
     match r with
     | .ok o => o.compress
